@@ -16,9 +16,11 @@
 (*    null, an empty body, an HTML page (Bodies);                          *)
 (*  * IMPLEMENTATION-SHAPED outcome functions, one per place where the     *)
 (*    code decides (variant "as_is"):                                      *)
-(*      TransportExc     http_transport.py:189-191 - HttpxTransport raises *)
-(*                       the BASE HTTPError(status_code=, message=,        *)
-(*                       response=) for status < 200 or >= 300;            *)
+(*      TransportExc     http_transport.py:193-202 - for status < 200 or   *)
+(*                       >= 300 HttpxTransport raises ClientError (4xx),   *)
+(*                       ServerError (5xx) or the base HTTPError, each with*)
+(*                       (status_code=, message=, response=) [repaired by  *)
+(*                       84403d5; it used to raise the base class always]; *)
 (*      Primary          endpoint_utils._get_primary_response: 200, 201,   *)
 (*                       202, 204, other 2xx, `default`, else THE FIRST    *)
 (*                       LISTED response (an error response then decides   *)
@@ -172,7 +174,9 @@ Importable(v, d) == v = "fixed" \/ \A c \in Codes(d) : Is2xx(c) \/ Is4xx(c) \/ I
 
 \* the bundled transport honours "raise for status < 200 or >= 300"; a pass-through transport never raises
 TransportRaises(t, s) == t = "bundled" /\ ~Is2xx(s)
-TransportExc(v, s)    == Raise(IF v = "fixed" THEN ByRange(s) ELSE Base, s, TRUE)
+\* http_transport.py:193-202 (since 84403d5): ClientError for 400..499, ServerError for 500..599, the base HTTPError for
+\* every other status outside 200..299 - the same class choice in both variants
+TransportExc(v, s)    == Raise(ByRange(s), s, TRUE)
 
 \* the primary response gets the first, value-returning case only when it is a numeric 2xx key
 \* (response_handler_generator.py:438-453); a primary picked by the fallback rules is handled like any other response
